@@ -61,6 +61,9 @@ pub mod marlin;
 /// checker.
 pub mod optional_rng;
 
+#[cfg(pc_verif)]
+pub mod verif_hooks;
+
 #[cfg(not(feature = "std"))]
 macro_rules! eprintln {
     () => {};
